@@ -4,10 +4,18 @@
    What "terminates" means for the model: every `while` loop of parse_tag is a fuelled Fixpoint.  The fuel
    handed to each loop is linear in the input that is left when the loop starts (outer loop: |s|+1, container
    stack loop: |rest|+1, filter-parts loop: |rest|+2), and the theorems show it is never exhausted - i.e. each
-   loop body runs at most that many times because every iteration consumes input or stops.  The cost of one
-   iteration in CPython (string concatenation, slicing) is not modelled; the time clause is observed by the
-   scaling test of harness/c12.py. *)
+   loop body runs at most that many times because every iteration consumes input or stops.  `parse_tag_iterations_linear`
+   makes the amortised count explicit: over a whole parse the three loop bodies run at most 5*|s|+4 times in total.  The cost
+   of one body in CPython (string concatenation, slicing, the helper scans over the rest of the text) is not modelled:
+   it enters `parse_tag_steps_quadratic` as an explicit hypothesis, and the time clause is observed by the watchdog /
+   scaling test of harness/c12.py.
+
+   Round trip: `serialize_reparse` (documented grammar = C02's TagParse/Spec.v).  Whole templates: `template_lexing_total`
+   (C09's Lexer model). *)
 From DJC Require Import Lib.Base TagParse.Model TagParse.Proofs Gen.C12.
+From DJC Require Import TagParse.Extra TagParse.Steps TagParse.Resolve TagParse.Spec TagParse.ParseProofs TagParse.RoundTrip
+     TagParse.TemplateProofs.
+From DJC Require Lexer.Model.
 Import Coq.Strings.String.StringSyntax.
 Delimit Scope string_scope with string.
 
@@ -109,6 +117,68 @@ Proof.
 Qed.
 Print Assumptions detailed_tag_parser_total.
 
+(* ---- the time clause: number of loop-body executions ---- *)
+(* parse_tag_t is parse_tag with counters for the bodies of its three `while` loops (attributes, container stack, filter
+   parts); its first component is parse_tag itself. *)
+Theorem counted_parse_is_parse_tag : forall s : str, fst (parse_tag_t s) = parse_tag s.
+Proof. exact parse_tag_t_fst. Qed.
+Print Assumptions counted_parse_is_parse_tag.
+
+(* Amortised over the whole run - successful or not - the three loop bodies together execute at most 5*|s|+4 times: every
+   execution is paid for by input that is consumed (the fuel alone would only give a product of the three budgets). *)
+Theorem parse_tag_iterations_linear : forall s : str, parse_tag_iters s <= 5 * length s + 4.
+Proof. exact parse_tag_iters_linear. Qed.
+Print Assumptions parse_tag_iterations_linear.
+
+(* Quadratic time = linear number of bodies x linear cost of one body.  The second factor is a HYPOTHESIS about CPython
+   (helper scans, `normalized += token`, slices: each at most proportional to the text) - stated, not proved; the key scan that
+   is rewound (`index -= len(key)`) makes a body cost proportional to the rest of the text, so quadratic is attained. *)
+Theorem parse_tag_steps_quadratic : forall (body_cost : nat -> nat) (k : nat),
+  (forall n, body_cost n <= k * (n + 1)) ->
+  forall s : str, parse_tag_iters s * body_cost (length s) <= k * (5 * length s + 4) * (length s + 1).
+Proof. exact parse_tag_cost_quadratic. Qed.
+Print Assumptions parse_tag_steps_quadratic.
+
+(* ---- the round-trip clause ---- *)
+(* For every argument list `a` of the documented grammar (arglist_ok: C02's Spec.v) written under ANY layout `lay` (every
+   insignificant white-space run, trailing commas): parse_tag accepts the text, the attributes serialise (TagAttr.serialize
+   joined by single spaces, >= 102 recursion levels available), the canonical text parses again, and the second parse has
+   the same keys and the same value ASTs as the first (start_index is the only field that may differ). *)
+Theorem serialize_reparse : forall (allowed : list str) (lay : layout) (tag : str) (a : arglist) (d : nat),
+  arglist_ok tag allowed a = true -> 101 < d ->
+  exists attrs s attrs',
+    parse_tag (print lay tag a) = Ok (print lay tag a, attrs)
+    /\ serialize_tag d attrs = Ok s
+    /\ parse_tag s = Ok (s, attrs')
+    /\ map kv attrs' = map kv attrs.
+Proof. exact serialize_reparse_lemma. Qed.
+Print Assumptions serialize_reparse.
+
+(* the canonical serialisation is the same argument list printed under the layout of serialize(): one space between
+   arguments, after `,` and after the `:` of a dict pair, nothing elsewhere *)
+Theorem serialization_is_canonical_printing : forall (allowed : list str) (tag : str) (a : arglist) (attrs : list attr) (d : nat),
+  arglist_ok tag allowed a = true -> 101 < d ->
+  map kv attrs = (None, tok_node tag) :: map item_kv (items_with_slash a) ->
+  serialize_tag d attrs = Ok (print ser_layout tag a).
+Proof. exact serialize_is_print. Qed.
+Print Assumptions serialization_is_canonical_printing.
+
+(* ---- "every template source" ---- *)
+(* parse_template (C09's transliteration: restart loop + Django's DebugLexer + _detailed_tag_parser) returns tokens or one of
+   the two TemplateSyntaxError messages of _detailed_tag_parser (Lexer.Model.perr) for every source and either setting of
+   multiline_tags; the restart loop ends within |s|+1 iterations (surplus fuel changes nothing), each of which lexes the
+   rest of the text once - a quadratic number of lexer steps at most. *)
+Theorem template_lexing_total : forall (d : bool) (s : str),
+  exists r, Lexer.Model.parse_template d s = r
+            /\ ((exists toks, r = Lexer.Model.POk toks) \/ (exists e, r = Lexer.Model.PErr e))
+            /\ forall k, Lexer.Model.pt_go (S (length s) + k) d s 0 0 None [] = r.
+Proof.
+  intros d s. exists (Lexer.Model.parse_template d s). split; [reflexivity|]. split.
+  - exact (template_total_lemma d s).
+  - exact (template_restarts_lemma d s).
+Qed.
+Print Assumptions template_lexing_total.
+
 (* ---- non-vacuity ---- *)
 Example parse_ok_example :
   exists a, parse_tag (s2n "component 'x' a=[1, *b] {""k"": v|f:2} ...d /"%string) = Ok (s2n "component 'x' a=[1, *b] {""k"": v|f:2} ...d /"%string, a)
@@ -121,3 +191,29 @@ Proof. repeat constructor; simpl; try discriminate. Qed.
 Example detailed_ok_example :
   detailed_tag (s2n "{% component ""a %} b"" 'c' %} tail"%string) = Ok (s2n "component ""a %} b"" 'c'"%string, 28%N).
 Proof. vm_compute. reflexivity. Qed.
+
+(* the hypotheses of serialize_reparse are satisfiable, with nested literals, spreads, filters, a translation and a flag *)
+Definition rt_example : arglist :=
+  mkarglist [IPos (SLeaf (mkleaf (AStr 39%N (s2n "x"%string)) []));
+             IKw (s2n "a"%string) (SList [(false, SLeaf (mkleaf (AVar (s2n "1"%string)) [])); (true, SLeaf (mkleaf (AVar (s2n "b"%string)) []))]);
+             IPos (SDict [(Some (mkleaf (AStr 34%N (s2n "k"%string)) []),
+                           SLeaf (mkleaf (AVar (s2n "v"%string)) [(s2n "f"%string, Some (AVar (s2n "2"%string)))]));
+                          (None, SLeaf (mkleaf (AVar (s2n "d"%string)) []))]);
+             ISpread (SLeaf (mkleaf (AVar (s2n "e"%string)) []));
+             IPos (SLeaf (mkleaf (ATrans 34%N (s2n "t"%string)) []));
+             IFlag (s2n "only"%string)] true.
+Example rt_example_ok : arglist_ok (s2n "component"%string) [s2n "only"%string] rt_example = true.
+Proof. vm_compute. reflexivity. Qed.
+Example rt_example_text :
+  print ser_layout (s2n "component"%string) rt_example
+  = s2n "component 'x' a=[1, *b] {""k"": v|f:2, **d} ...e _(""t"") only /"%string.
+Proof. vm_compute. reflexivity. Qed.
+Example rt_example_roundtrip : roundtrip_ok (print ser_layout (s2n "component"%string) rt_example) = true.
+Proof. vm_compute. reflexivity. Qed.
+(* the linear bound is nearly attained: 4 bodies per character on `a a a ...`, and the counters of a small example *)
+Example iterations_example : parse_tag_iters (s2n "a=[1, 2|f:3] 'x'|y"%string) = 15 /\ parse_tag_iters (s2n "a a a a a a a a"%string) = 32.
+Proof. split; vm_compute; reflexivity. Qed.
+Example template_example :
+  template_obs true (s2n "a{% component ""x %} y"" %}b{{ v }}"%string) = Some (TToks 4 33)
+  /\ template_obs true (s2n "{% slot 'a %}"%string) = Some (TErrString 39).
+Proof. split; vm_compute; reflexivity. Qed.
